@@ -290,7 +290,9 @@ class DiameterAssociation(object):
 
             MESSAGE_LENGTH = len(msg.dump())
 
-            if MESSAGE_LENGTH > SEND_BUFFER_MAXIMUM_SIZE - len(stream):
+            if stream and MESSAGE_LENGTH > SEND_BUFFER_MAXIMUM_SIZE - len(stream):
+                #: (A message larger than the whole send buffer is a batch 
+                #: of its own: deferring it would defer it forever.)
                 #: It goes first in the next batch. Putting it back at the 
                 #: tail of the queue would let the messages queued behind 
                 #: it overtake it.
